@@ -6,6 +6,9 @@ from vf.ref import bip32_ref as R
 from vf.runner import Acc, filler
 
 PROPERTY = "C09"
+# E6: seq_ops() indices of the operations that are interrupted at every line (vf/seqexplore.interrupted); probes = listed indices
+INTERRUPT_X = [6, 0]
+INTERRUPT_PROBES = [6, 7, 0]
 CONCUR_FILES = ('bits/bips/bip32.py',)
 # (thread a, thread b), warm-up: indices into seq_ops() - the ordinary single-case checks run concurrently (vf/concur.py)
 # (real-curve derivations cost ~0.3 s per call: the node scenario is thorough-tier only)
@@ -24,6 +27,7 @@ ASSUMPTIONS = ["vf/ref/bip32_ref.py (ecref point maths, own serialisation), vali
 OBLIGATIONS = {
     "concurrent_calls": "interleavings of two concurrent calls (single-case checks in two threads, cold and after warm-up calls)",
     "long_history": "operations executed in one long history (800 payloads, forward / forward / reverse)",
+    "interrupted_calls": "interruption points explored (an earlier call cut short by an asynchronous exception, then ordinary calls)",
     "history_sequences": "operation sequences (non-initial process states) explored",
     "hardened_edge": "a hardened child derived", "public_edge": "a child derived from an xpub", "hardened_from_xpub": "a hardened child "
     "requested from an xpub (must raise)", "index_max_nonhardened": "index 2^31-1", "stepwise": "a depth>=2 key derived step by step "
@@ -168,6 +172,9 @@ def run_case(kind, case):
     if kind == "concurcase":
         from vf import concur
         return concur.replay_cases(run_case, PROPERTY, case, CONCUR_FILES)
+    if kind == "interrupted":
+        from vf import seqexplore
+        return seqexplore.replay_interrupted(run_case, case)
     if kind == "seq":
         from vf import seqexplore
         return seqexplore.replay(run_case, case)
@@ -233,6 +240,8 @@ def jobs(tier, seed):
     js += seq_jobs(8, weight=10)
     from vf.runner import long_jobs
     js += long_jobs()
+    from vf.runner import interrupt_jobs
+    js += interrupt_jobs(len(INTERRUPT_X))
     from vf.runner import concur_jobs
     js += concur_jobs(2 if tier == "quick" else len(CONCUR_SCEN))
     return js
@@ -247,6 +256,11 @@ def run_job(job):
     if job["part"] == "longhist":
         from vf.runner import run_long_job
         return run_long_job(job, long_ops(job), run_case)
+    if job["part"] == "interrupted":
+        from vf.runner import run_interrupt_job
+        ops = [o for o in seq_ops(dict(job, part="interrupted", shard=[0, 1]))]
+        probes = ops if INTERRUPT_PROBES is None else [ops[i] for i in INTERRUPT_PROBES]
+        return run_interrupt_job(job, [ops[i] for i in INTERRUPT_X], probes, run_case, CONCUR_FILES)
     if job["part"] == "seq":
         from vf.runner import run_seq_job
         return run_seq_job(job, seq_ops(job), run_case)
